@@ -137,6 +137,12 @@ pub struct Case {
     /// that no request sequence obtains a secret from it
     #[serde(default)]
     pub refused_setup: u8,
+    /// API level, simple factory only: the operator's policy filter is a carve-out in vlsd's
+    /// `--policy-filter` order: the rules the revocation / signing guarantees are tagged with stay
+    /// errors (`policy-revoke-*`, `policy-commitment-holder-not-revoked`, `policy-other`,
+    /// `policy-commitment-spends-active-utxo`), every other `policy-*` rule is only logged
+    #[serde(default)]
+    pub carve_out: bool,
 }
 
 /// Execution level of a history.  VERIF_PROTO_ONLY=1 removes the API level (sensitivity runs
@@ -152,10 +158,11 @@ pub fn proto_strat() -> BoxedStrategy<Option<u8>> {
 }
 
 pub fn case_strat(max_ops: usize, valid_weight: u32, sign_weight: u32) -> BoxedStrategy<Case> {
-    (any::<bool>(), any::<bool>(), proptest::collection::vec(op_strat(valid_weight, sign_weight), 1..max_ops), proto_strat(), any::<bool>(), prop_oneof![3 => Just(0u8), 1 => 1u8..4])
-        .prop_map(|(anchors, outbound, ops, proto, onchain, refused_setup)| {
+    (any::<bool>(), any::<bool>(), proptest::collection::vec(op_strat(valid_weight, sign_weight), 1..max_ops), proto_strat(), any::<bool>(), prop_oneof![3 => Just(0u8), 1 => 1u8..4], prop::bool::weighted(0.4))
+        .prop_map(|(anchors, outbound, ops, proto, onchain, refused_setup, carve_out)| {
             let refused_setup = if proto.is_none() { refused_setup } else { 0 };
-            Case { anchors, outbound, ops, onchain: onchain && proto.is_none() && refused_setup == 0, proto, refused_setup }
+            let onchain = onchain && proto.is_none() && refused_setup == 0;
+            Case { anchors, outbound, ops, onchain, proto, refused_setup, carve_out: carve_out && proto.is_none() && refused_setup == 0 && !onchain }
         })
         .boxed()
 }
@@ -205,8 +212,29 @@ pub struct Machine {
     pub setup_refused: bool,
 }
 
+pub fn carve_out_cfg() -> WorldCfg {
+    use lightning_signer::policy::filter::{FilterResult, FilterRule, PolicyFilter};
+    let mut cfg = WorldCfg::default_testnet();
+    let mut f = PolicyFilter::default();
+    f.merge(PolicyFilter {
+        rules: vec![
+            FilterRule { tag: "policy-revoke-".to_string(), is_prefix: true, action: FilterResult::Error },
+            FilterRule { tag: "policy-commitment-holder-not-revoked".to_string(), is_prefix: false, action: FilterResult::Error },
+            FilterRule { tag: "policy-other".to_string(), is_prefix: false, action: FilterResult::Error },
+            FilterRule { tag: "policy-commitment-spends-active-utxo".to_string(), is_prefix: false, action: FilterResult::Error },
+            FilterRule { tag: "policy-".to_string(), is_prefix: true, action: FilterResult::Warn },
+        ],
+    });
+    cfg.policy.filter.merge(f);
+    cfg
+}
+
 pub fn setup_world(anchors: bool, outbound: bool) -> Machine {
-    let mut w = World::new(WorldCfg::default_testnet());
+    setup_world_cfg(anchors, outbound, WorldCfg::default_testnet())
+}
+
+pub fn setup_world_cfg(anchors: bool, outbound: bool, cfg: WorldCfg) -> Machine {
+    let mut w = World::new(cfg);
     let mut spec = ChanSpec::basic(1);
     spec.anchors = anchors;
     spec.outbound = outbound;
@@ -461,6 +489,7 @@ pub fn machine_for(case: &Case) -> Box<dyn HistoryMachine> {
             None => Box::new(setup_world(case.anchors, case.outbound)),
         },
         None if case.onchain => Box::new(setup_world_onchain(case.anchors, case.outbound)),
+        None if case.carve_out => Box::new(setup_world_cfg(case.anchors, case.outbound, carve_out_cfg())),
         None => Box::new(setup_world(case.anchors, case.outbound)),
         Some(v) => Box::new(crate::props::proto::setup_proto(case.anchors, case.outbound, v as u32)),
     }
@@ -470,6 +499,7 @@ pub fn level_name(case: &Case) -> String {
     match case.proto {
         None if case.refused_setup != 0 => "api-refused-setup".to_string(),
         None if case.onchain => "api-onchain".to_string(),
+        None if case.carve_out => "api-carve-out-filter".to_string(),
         None => "api".to_string(),
         Some(v) => format!("v{}", v),
     }
